@@ -368,6 +368,9 @@ func scalarReflectFromGo(schema *schema_j5pb.Field, value interface{}) (protoref
 		case string:
 			return decimalFromString(val)
 
+		case json.Number:
+			return decimalFromString(val.String())
+
 		case *string:
 			if val == nil {
 				return protoreflect.Value{}, nil
